@@ -81,7 +81,7 @@ def twins(r):
 def cases(seed, tier, shard, nshards):
     for i in common.sharded(budget(tier)['n'], shard, nshards):
         r = common.rng_for(seed, PROP, i)
-        d = docs.gen(r, probes=True, deep6=True, depth=r.choice([2, 3, 3, 4]), parts=False, eqnarray=r.random() < 0.3, maxsec=r.choice([3, 6, 10]),
+        d = docs.gen(r, grouped_heads=r.choice([0, 0, 0.2]), probes=True, deep6=True, depth=r.choice([2, 3, 3, 4]), parts=False, eqnarray=r.random() < 0.3, maxsec=r.choice([3, 6, 10]),
                      title_footnotes=r.choice([0, 0.5]))
         tight = r.random() < 0.3
         pre, suf, tw = twins(r) if r.random() < 0.4 else ('', '', [])
